@@ -352,11 +352,12 @@ fn builder_histories() -> Vec<(bool, Vec<Op>)> {
 fn check_builder(with_addr: bool, ops: &[Op], prop: &str) -> Option<Mismatch> {
     let bytes_aspect = ["C07", "C10", "C13", "any"].contains(&prop);
     let len_aspect = ["C09", "any"].contains(&prop);
+    let refusal_aspect = ["C09", "C10", "any"].contains(&prop);
     let succeeds_aspect = ["C07", "C13", "any"].contains(&prop);
     // real_ok: what the real code did; enc_ok: the value is encodable (<= 65535 bytes) - otherwise it MUST be refused
     // in_domain: after this write at most 65535 bytes follow the fixed part (the headers C07 / C13 speak about)
     let dv = |real_ok: bool, enc_ok: bool, in_domain: bool, what: String| -> Result<Option<(String, String)>, String> {
-        if real_ok && !enc_ok && len_aspect { return Err(what + " (a value too large for its 16-bit length was accepted)"); }
+        if real_ok && !enc_ok && refusal_aspect { return Err(what + " (a value too large for its 16-bit length was accepted)"); }
         if !real_ok && succeeds_aspect && in_domain { return Err(what + " was refused although the header still fits in 65535 bytes"); }
         Ok(None)
     };
@@ -416,7 +417,8 @@ fn check_builder(with_addr: bool, ops: &[Op], prop: &str) -> Option<Mismatch> {
     }
 }
 
-fn check_encoders() -> Option<Mismatch> {
+/// `limits`: also which value sizes an encoder accepts on its own (C20; C07 only speaks about what fits in a header)
+fn check_encoders(limits: bool) -> Option<Mismatch> {
     use v2::WriteToHeader;
     macro_rules! int_case { ($v:expr) => {{ let v = $v; let want = v.to_be_bytes().to_vec(); let got = v.to_bytes().unwrap();
         let mut w = v2::Writer::from(vec![9u8, 8]); let n = v.write_to(&mut w).unwrap(); let out = w.finish();
@@ -432,6 +434,7 @@ fn check_encoders() -> Option<Mismatch> {
         if a != b || a != vec![c, 0, 3, 1, 2, 3] { return Some(Mismatch { case: format!("TLV {:?}", t), expected: hex(&[c, 0, 3, 1, 2, 3]), actual: format!("{} / {}", hex(&a), hex(&b)) }); }
     }
     for n in [65533usize, 65535, 65536] {
+        if !limits { break; }
         let v = vec![7u8; n];
         let a = v2::TypeLengthValue::new(4u8, &v[..]).to_bytes(); let b = (4u8, &v[..]).to_bytes(); let c = v[..].to_bytes();
         let want_ok = n <= 65535;
@@ -697,7 +700,7 @@ fn run(prop: &str, one: Option<&str>) -> (Option<Mismatch>, usize) {
     if prop == "C16" { let (m, k) = check_c16_domain(); if m.is_some() { return (m, n + k); } n += k; }
     if ["C07", "C13"].contains(&prop) { for c in tlv_cases() { n += 1; if let Some(m) = check_tlv(&c) { return (Some(m), n); } } }
     if ["C07", "C09", "C10", "C13"].contains(&prop) { for (w, ops) in builder_histories() { n += 1; if let Some(m) = check_builder(w, &ops, prop) { return (Some(m), n); } } }
-    if ["C07", "C20"].contains(&prop) { n += 1; if let Some(m) = check_encoders() { return (Some(m), n); } }
+    if ["C07", "C20"].contains(&prop) { n += 1; if let Some(m) = check_encoders(prop == "C20") { return (Some(m), n); } }
     if prop == "C07" { let (m, k) = check_c07_roundtrip(); if m.is_some() { return (m, n + k); } n += k; }
     if prop == "C19" { n += 1; if let Some(m) = check_constructors() { return (Some(m), n); } }
     if prop == "C08" { n += 1; if let Some(m) = check_format() { return (Some(m), n); } }
